@@ -142,13 +142,40 @@ Qed.
 Theorem iter_exceptions valid h g x :
   let sg := irun valid h in
   snd (step valid (fst sg) (IterNext g)) = OExc x ->
-  (x = ValueError /\ exists l, gh_attrs (snd sg g) = Some l /\ attrs_valid valid l = false)
+  (exists l, gh_attrs (snd sg g) = Some l /\ exc_reason valid l x)
   \/ (x = IndexError /\ tbl (fst sg) = []).
 Proof.
   intros sg Hx. destruct (Nat.leb (ngen (fst sg)) g) eqn:Hg.
   - cbn [step] in Hx. rewrite Hg in Hx. discriminate.
   - pose proof (Inv_irun valid h) as HI. fold sg in HI. destruct sg as [s G].
     exact (proj1 (proj2 (next_inv valid s G g HI Hg)) x Hx).
+Qed.
+
+(* attrs None or an empty collection (= all attributes): next() never fails, whatever subset of the
+   attributes is unimplemented on the running system; and the info dict then has exactly the implemented names *)
+Theorem iter_all_attrs_never_raises valid h g x :
+  let sg := irun valid h in
+  gh_attrs (snd sg g) = None \/ gh_attrs (snd sg g) = Some [] ->
+  snd (step valid (fst sg) (IterNext g)) = OExc x -> x = IndexError /\ tbl (fst sg) = [].
+Proof.
+  intros sg Ha Hx. destruct (iter_exceptions valid h g x Hx) as [[l [Hl Hr]]|H]; [|exact H].
+  fold sg in Hl. destruct Ha as [Ha|Ha]; rewrite Ha in Hl; [discriminate|]. injection Hl as <-.
+  destruct Hr as [[_ H]|[[_ H]|[_ H]]]; discriminate.
+Qed.
+
+Lemma spec_keys_all valid : spec_keys valid [] = zsort (filter (fun a => negb (unimpl a)) valid).
+Proof. reflexivity. Qed.
+
+(* a non-empty attrs naming an unimplemented attribute keeps the documented behaviour: the first visited
+   process that is in the table makes next() raise NotImplementedError (as_dict level) *)
+Theorem as_dict_explicit_unimplemented t valid ru pid ob l k :
+  zmem BADTYPE l = false -> attrs_valid valid l = true -> explicit_ni l = true ->
+  zmem PPID (nodup Z.eq_dec l) = false -> find_proc t pid = Some k ->
+  fst (fst (as_dict t valid ru pid ob l)) = Exc NotImplementedError.
+Proof.
+  intros Hb Hv Hn Hp Hf. unfold as_dict. rewrite Hb, existsb_invalid, Hv, Hn. cbn [negb].
+  assert (Ha : alive t pid = true) by (unfold alive; now rewrite Hf). rewrite Ha. cbn [negb]. rewrite andb_false_r.
+  unfold explicit_ni in Hn. destruct (nodup Z.eq_dec l) as [|a r] eqn:E; [discriminate|]. rewrite Hp. reflexivity.
 Qed.
 
 (* ---------------------------------------------------------------- the cache *)
@@ -429,11 +456,11 @@ Qed.
 (* when does as_dict on a cached object of a PID that IS in the table raise NoSuchProcess (so that the PID
    is dropped): exactly when ppid is requested and the object does not denote the process that has the PID *)
 Theorem as_dict_nsp_exact t valid ru pid ob l k :
-  attrs_valid valid l = true -> find_proc t pid = Some k ->
+  zmem BADTYPE l = false -> attrs_valid valid l = true -> explicit_ni l = false -> find_proc t pid = Some k ->
   (fst (fst (as_dict t valid ru pid ob l)) = Exc NoSuchProcess <->
    req_ppid valid (Some l) = true /\ (o_gone ob = true \/ o_reused ob = true \/ k_start k <> o_start ob)).
 Proof.
-  intros Hv Hf. unfold as_dict, req_ppid. rewrite existsb_invalid, Hv. cbn [negb].
+  intros Hb Hv Hn Hf. unfold as_dict, req_ppid. rewrite Hb, existsb_invalid, Hv, Hn. cbn [negb].
   assert (Ha : alive t pid = true) by (unfold alive; now rewrite Hf). rewrite Ha. cbn [negb]. rewrite andb_false_r.
   destruct (zmem PPID _); [|cbn; split; [discriminate|intros [H _]; discriminate]].
   unfold is_running_obj. rewrite Hf.
